@@ -33,7 +33,9 @@ Definition opts_equal (a b : opts) : bool :=
                         match slookup (fst kv) (metadata a) with Some _ => true | None => false end) (metadata b)
   (* PinUpdate deliberately ignored *)
   && Nat.eqb (length (origins a)) (length (origins b))
-  && forallb (fun o1 => existsb (String.eqb o1) (origins b)) (origins a).
+  && forallb (fun o1 => existsb (String.eqb o1) (origins b)) (origins a)
+  (* for _, o2 := range po2.Origins { found in po.Origins } : the other direction (repair of the one-way comparison) *)
+  && forallb (fun o2 => existsb (String.eqb o2) (origins a)) (origins b).
 
 (* po.Equals(po2) with possibly nil receivers; [same]: the two are the same pointer *)
 Definition opts_equals (same : bool) (a b : option opts) : bool :=
